@@ -58,9 +58,18 @@ def makeBlocks (E : Env) (hashOf : Array UInt8 → Bool → Nat → Nat) (p : Pr
   | _, [] => []
   | S, b :: rest => let r := makeBlock E hashOf p S b; r.2 ++ makeBlocks E hashOf p r.1 rest
 
-/-- the whole frame for the blocks `blocks` (as `Model/FrameC.lean` cuts the input) -/
-def frame (E : Env) (hashOf : Array UInt8 → Bool → Nat → Nat) (p : Prefs) (blocks : List Bytes) : Bytes :=
-  header E p ++ makeBlocks E hashOf p {} blocks ++ encLE 4 0 ++ (if p.contentChecksum then encLE 4 (E.hash blocks.flatten) else [])
+/-- the whole frame for the blocks `blocks` (as `Model/FrameC.lean` cuts the input), the LZ4 state of the compression context being `S0` when the first
+    block arrives (`{}` on a context that starts fresh; after earlier frames: whatever they left — `LZ4F_compressBegin` does not reset it in this mode) -/
+def frameFrom (E : Env) (hashOf : Array UInt8 → Bool → Nat → Nat) (p : Prefs) (S0 : FastR.RState) (blocks : List Bytes) : Bytes :=
+  header E p ++ makeBlocks E hashOf p S0 blocks ++ encLE 4 0 ++ (if p.contentChecksum then encLE 4 (E.hash blocks.flatten) else [])
+
+def frame (E : Env) (hashOf : Array UInt8 → Bool → Nat → Nat) (p : Prefs) (blocks : List Bytes) : Bytes := frameFrom E hashOf p {} blocks
+
+/-- the frame a call history produces on a context whose LZ4 state is `S0` -/
+def frameOfOpsFrom (E : Env) (hashOf : Array UInt8 → Bool → Nat → Nat) (p : Prefs) (S0 : FastR.RState) (ops : List FrameC.Op) : Option Bytes :=
+  match FrameC.run {} (FrameC.Op.begin (LZ4V.Spec.Frame.blockSizeOf p.bsid) p.autoFlush :: ops ++ [FrameC.Op.finish]) with
+  | .error _ => none
+  | .ok (_, blocks) => some (frameFrom E hashOf p S0 blocks)
 
 /-- the frame a call history produces on a fresh context -/
 def frameOfOps (E : Env) (hashOf : Array UInt8 → Bool → Nat → Nat) (p : Prefs) (ops : List FrameC.Op) : Option Bytes :=
